@@ -21,6 +21,20 @@ pub fn run_for(prop: &'static str, case: &HistCase, epoll_each_step: bool) -> (F
     }
     match judged.violation {
         Some((v, props)) if props.contains(&prop) || v.rule.starts_with(prop) => (judged.facts, Some(v), None),
+        // C15: after a failed registration or a failing source "the loop behaves as if the call had not been made",
+        // "every other source keeps working and loses none of its events or armed timers": a violation of the
+        // callback-legality / obligation / timer / removal rules that shows up behind such a fault is a C15 violation
+        Some((v, props))
+            if prop == "C15"
+                && (judged.facts.failed_registrations > 0 || judged.facts.failed_dispatches > 0 || judged.facts.failed_adapts > 0)
+                // (not the table/bookkeeping rules: what a failed unregistration leaves behind for the failing source
+                // itself is unspecified, and those rules are C15's own where they apply)
+                && (v.rule.starts_with("C01.") || v.rule.starts_with("C02.") || v.rule.starts_with("C05.") || v.rule == "C06.after_remove")
+                && props.iter().any(|p| matches!(*p, "C01" | "C02" | "C05" | "C06")) =>
+        {
+            let v2 = Violation::new("C15.intact", format!("behind a failed registration / failing source: {} ({})", v.detail, v.rule)).with_sig(v.sig.clone());
+            (judged.facts, Some(v2), None)
+        }
         Some((v, _)) => (judged.facts, None, Some(v)),
         None => (judged.facts, None, None),
     }
